@@ -22,7 +22,7 @@ RULE = ('fault plan = for every worker but one (the usable one), per remote meth
         'to the fault-free in-process result; application errors surface as errors; exhausted budget => TimeoutError; afterwards '
         'no worker is acquired; a 120 s watchdog catches hangs; non-trivial = a fault hit an issued call and the run still had to '
         'complete; distinct = distinct canonical case JSON'
-        '; also: workers that serve one or two tasks and then go away under a later one, tasks handed over as Task objects (also blocking ones), an explicit retry budget that is used up but not exceeded (within_budget), fault action presumed_dead (reply parked, worker unregistered, reply delivered after a generated delay or at the moment the caller gives the worker up), every worker timing out 29..50 times on initialisation')
+        '; also: workers that serve one or two tasks and then go away under a later one, tasks handed over as Task objects (also blocking ones), an explicit retry budget that is used up but not exceeded (within_budget), fault action presumed_dead (reply parked, worker unregistered, reply delivered after a generated delay or at the moment the caller gives the worker up), every worker timing out 29..50 times on initialisation, as_completed(ignore_failures=True), a worker dying while acquired followed by a task error (ownership asked of every worker, dead ones too)')
 ASSUMPTIONS = [
     'in-process fake transport: an unreachable or dead server fails a call immediately with deadline exceeded (code 4)',
     'one worker carries no faults (the property\'s "one worker stays usable"); plans that must complete use the default '
